@@ -321,6 +321,20 @@ static int meta_op(int nt, char **tok) {
     free(names);
     printf("validateall n=%u ok=%u %s", k, okc, bad ? "BAD" : "fine"); tail(); return 1;
   }
+  if (!strcmp(op, "rawfiles")) {
+    /* every RAW field with the path of its data file relative to the dirfile */
+    unsigned n = gd_nentries(D, NULL, GD_RAW_ENTRY, GD_ENTRIES_HIDDEN | GD_ENTRIES_NOALIAS);
+    const char **l = gd_entry_list(D, NULL, GD_RAW_ENTRY, GD_ENTRIES_HIDDEN | GD_ENTRIES_NOALIAS);
+    char **names = malloc((n + 1) * sizeof(char *)); unsigned k = 0;
+    for (; l && k < n && l[k]; k++) names[k] = strdup(l[k]);
+    fputs("rawfiles", stdout);
+    for (unsigned i = 0; i < k; i++) {
+      char *fn = gd_raw_filename(D, names[i]);
+      printf(" %s=%s", names[i], fn ? fn + strlen(workdir) : "?");
+      free(fn); free(names[i]);
+    }
+    free(names); tail(); return 1;
+  }
   if (!strcmp(op, "etable")) {
     /* D->entry[] in table order, names in hex (internal invariant of the bisection) */
     fputs("etable", stdout);
